@@ -1,3 +1,4 @@
+import re
 from typing import Union
 
 from pydbml.classes import Column, Enum, Expression
@@ -48,8 +49,11 @@ def render_column(model: Column) -> str:
     result += f'"{model.name}" '
     if isinstance(model.type, Enum):
         result += get_full_name_for_sql(model.type)
-    else:
+    elif re.fullmatch(r'\w+(\[\]|\.\w+|\(.*\))?', model.type, re.DOTALL):
         result += model.type
+    else:
+        # anything else (e.g. "character varying") only parses back as a quoted name
+        result += f'"{model.type}"'
 
     result += render_options(model)
     return result
